@@ -11,10 +11,12 @@ import (
 	"strings"
 	"time"
 
+	"github.com/siderolabs/gen/optional"
 	"go.uber.org/zap"
 
 	"github.com/cosi-project/runtime/pkg/controller"
 	"github.com/cosi-project/runtime/pkg/controller/generic/cleanup"
+	"github.com/cosi-project/runtime/pkg/controller/generic/destroy"
 	"github.com/cosi-project/runtime/pkg/controller/generic/qtransform"
 	"github.com/cosi-project/runtime/pkg/controller/generic/transform"
 	"github.com/cosi-project/runtime/pkg/controller/runtime"
@@ -136,8 +138,10 @@ func (g *grabber) Destroy(ctx context.Context, p resource.Pointer, opts ...state
 
 // usesInputFinalizers: the controller puts its own finalizer on inputs.
 func (c Cfg) usesInputFinalizers() bool {
-	return c.Flavour == "transform-fin" || strings.HasPrefix(c.Flavour, "qtransform")
+	return strings.HasPrefix(c.Flavour, "transform-fin") || strings.HasPrefix(c.Flavour, "qtransform")
 }
+
+func (c Cfg) hasDestroyController() bool { return strings.HasSuffix(c.Flavour, "+destroy") }
 
 func (c Cfg) tdCountsAsRunning() bool { return c.Flavour == "transform-ignoretd" }
 
@@ -218,6 +222,14 @@ func doOp(ctx context.Context, st state.State, op string, act *actor) {
 var errTransient = errors.New("transient transform error")
 
 func register(rt *runtime.Runtime, c Cfg, invocations *int) error {
+	if base, ok := strings.CutSuffix(c.Flavour, "+destroy"); ok {
+		// additionally the generic destroy controller for the input kind: whoever tears an unowned input
+		// down leaves the final Destroy to it
+		if err := rt.RegisterQController(destroy.NewController[*A](optional.None[uint]())); err != nil {
+			return err
+		}
+		c.Flavour = base
+	}
 	xform := func(in *A, out *B) error {
 		vrt.Yield() // a transform takes time: whatever the actor does meanwhile lands inside the reconcile
 		vrt.TouchKey("tx.invocations", true)
@@ -448,6 +460,13 @@ func checkConvergence(c Cfg, x *explore.X, final map[string]resource.Resource, a
 			x.FailKey("converge/stuck-finalizer", "%s: input %s is torn down and its output is gone but it still carries the controller's finalizer (it can never be destroyed)", c.Name, snap(in))
 		}
 	}
+	if c.hasDestroyController() {
+		for k, r := range final {
+			if strings.HasPrefix(k, string(AType)+"/") && r.Metadata().Phase() == resource.PhaseTearingDown && r.Metadata().Owner() == "" && r.Metadata().Finalizers().Empty() {
+				x.FailKey("converge/not-destroyed", "%s: at quiescence the unowned input %s is torn down and free of finalizers but the destroy controller has not destroyed it", c.Name, snap(r))
+			}
+		}
+	}
 	for id, b := range act.blocked {
 		if !b {
 			continue
@@ -562,6 +581,15 @@ func scripts(thorough bool) map[string][]string {
 func mustRe(s string) *regexpT { return compile(s) }
 
 // Build returns the scenarios for prop ("C06" or "C07").
+// capFor: in the quick tier the fast-actor scenarios (whose schedule spaces are far beyond any cap) get half
+// the budget of the slow-actor ones (which mostly finish).
+func capFor(c Cfg, base int, thorough bool) int {
+	if !thorough && !strings.Contains(c.Name, "/slow/") {
+		return base / 2
+	}
+	return base
+}
+
 func Build(prop, tier string) []explore.Scenario {
 	thorough := tier == "thorough"
 	b := []int{0}
@@ -603,6 +631,20 @@ func Build(prop, tier string) []explore.Scenario {
 		"slow/rmc-then-tdd": {"create a", "mkc a", "settle", "rmc a", "settle", "tdd a"},
 	} {
 		cfgs = append(cfgs, Cfg{Name: "cleanup-combined/" + n, Flavour: "cleanup-combined", Script: sc2, Bounds: []int{0}})
+	}
+	// the generic destroy controller finishes what a plain Teardown starts (heavy: the quick tier runs one
+	// flavour, by the slow actor only - see the filter below)
+	for _, fl := range []string{"qtransform+destroy", "transform-fin+destroy"} {
+		if !thorough && fl != "qtransform+destroy" {
+			continue
+		}
+		cfgs = append(cfgs,
+			Cfg{Name: fl + "/teardown-only", Flavour: fl, Script: []string{"create a", "teardown a"}, Bounds: b},
+			Cfg{Name: fl + "/teardown-held-output", Flavour: fl, Script: []string{"create a", "outfin a", "teardown a", "outrmfin a"}, Bounds: b},
+		)
+		if thorough {
+			cfgs = append(cfgs, Cfg{Name: fl + "/teardown-recreate", Flavour: fl, Script: []string{"create a", "teardown a", "create a"}, Bounds: b})
+		}
 	}
 	// a transform that keeps failing: the input gets the finalizer but never an output; then it is torn down
 	for _, fl := range []string{"transform-fin", "qtransform"} {
@@ -649,11 +691,14 @@ func Build(prop, tier string) []explore.Scenario {
 	var out []explore.Scenario
 	for _, c := range cfgs {
 		c := c
+		if !thorough && c.hasDestroyController() && !strings.Contains(c.Name, "/slow/") {
+			continue
+		}
 		out = append(out, explore.Scenario{
 			Name:     c.Name,
 			Desc:     fmt.Sprintf("real runtime + real %s controller (A -> B), external actor script %v, first %d transform invocations fail; free switches at every external operation and inside the pipeline", c.Flavour, c.Script, c.FailFirst),
 			Bounds:   c.Bounds,
-			MaxExecs: maxExecs,
+			MaxExecs: capFor(c, maxExecs, thorough),
 			HB:       true,
 			Body:     func(x *explore.X) { Body(c, prop, x) },
 		})
